@@ -81,19 +81,19 @@ def generate(ctx: Ctx, rep: Report) -> list:
     jobs = []
     if ctx.quick:
         jobs.append(("exh", "Simulator.tla", "Simulator_depth2.cfg", {},
-                     "all call histories of depth 2 over the 34-operation menu; 7 invariants at every state"))
+                     "all call histories of depth 2 over the 35-operation menu; 7 invariants at every state"))
         jobs.append(("exh3s", "Simulator.tla", "Simulator_depth3s.cfg", {},
-                     "all call histories of depth 3 over the reduced 16-operation menu; 7 invariants at every state"))
+                     "all call histories of depth 3 over the reduced 17-operation menu; 7 invariants at every state"))
         jobs.append(("deep", "Simulator.tla", "Simulator_deep.cfg",
                      dict(simulate="num=3", depth=9, seed=ctx.seed, workers=8),
                      "seeded -simulate behaviours of depth 8 (and the siblings of their last call)"))
     else:
         jobs.append(("exh", "Simulator.tla", "Simulator_depth3.cfg", {},
-                     "all call histories of depth 3 over the 34-operation menu; 7 invariants at every state"))
+                     "all call histories of depth 3 over the 35-operation menu; 7 invariants at every state"))
         jobs.append(("exh4", "Simulator.tla", "Simulator_depth4.cfg", {},
-                     "all call histories of depth 4 over the reduced 16-operation menu; 7 invariants at every state"))
+                     "all call histories of depth 4 over the reduced 17-operation menu; 7 invariants at every state"))
         jobs.append(("deep", "Simulator.tla", "Simulator_deep.cfg",
-                     dict(simulate="num=40", depth=9, seed=ctx.seed, workers=8),
+                     dict(simulate="num=30", depth=9, seed=ctx.seed, workers=8),
                      "seeded -simulate behaviours of depth 8 (and the siblings of their last call)"))
 
     jobs.append(("warm", "Simulator.tla", "Simulator_warm.cfg", {},
@@ -122,7 +122,7 @@ def generate(ctx: Ctx, rep: Report) -> list:
     for h in hs:
         for s in h:
             seen[(s["op"]["k"], s["raised"])] += 1
-    need = [(k, False) for k in ("sim", "tc", "proto", "ptc", "upd", "scale", "ov", "ss", "clear", "read")] + \
+    need = [(k, False) for k in ("sim", "tc", "proto", "ptc", "upd", "scale", "ov", "ss", "ssfail", "clear", "read")] + \
            [(k, True) for k in ("sim", "tc", "ptc")]
     for n in need:
         if seen[n] == 0:
@@ -176,6 +176,7 @@ def rendering_notes(rep: Report, outs: list) -> None:
     fam = {"histories_with_time_dependent_inflow": sum(st.get("ramp", 0) for _, st in outs),
            "histories_with_assignment_defined_initial_value": sum(st.get("ia", 0) for _, st in outs),
            "histories_with_use_jacobian": sum(st.get("jac", 0) for _, st in outs),
+           "histories_with_derived_parameter_and_computed_coefficient": sum(st.get("derived", 0) for _, st in outs),
            "histories_with_mirror_variable(two overrides in a row)": sum(st.get("mirror", 0) for _, st in outs),
            "integer_typed_time_grids": sum(st.get("integer_typed_grids", 0) for _, st in outs)}
     rep.notes["model_family_members"] = fam
@@ -193,7 +194,8 @@ def _replay(h):
 def selftest_replayer(hs: list, seed: int) -> int:
     """Binding teeth, spec -> code: a history whose prediction was corrupted must be reported as a mismatch."""
     rnd = random.Random(seed)
-    pool = [h for h in hs if h[-1]["st"]["segs"] and not h[-1]["raised"] and nontrivial(h)]
+    pool = [h for h in hs if h[-1]["st"]["segs"] and not h[-1]["raised"] and nontrivial(h)
+            and all(s["op"]["k"] != "ssfail" for s in h)]
     n = 0
     for h in rnd.sample(pool, min(6, len(pool))):
         for kind in ("time", "raised", "par"):
@@ -429,6 +431,12 @@ def run(ctx: Ctx) -> int:
     rep.notes["histories_with_a_point_just_after_a_boundary"] = sum(1 for h in hs if simkit.has_eps(h))
     rep.notes["histories_replayed_at_large_absolute_times"] = sum(1 for _, st in outs if st.get("large"))
     rep.notes["histories_reading_views_before_a_continuation"] = sum(1 for h in hs if read_then_continue(h))
+    rep.notes["histories_with_a_failing_call_after_a_successful_segment"] = sum(
+        1 for h, (_, st) in zip(hs, outs) if st.get("fails") and any(s["st"]["failed"] and s["st"]["segs"] for s in h))
+    rep.notes["histories_not_replayed(successful_and_failing_steady_state_run_in_one_history)"] = sum(
+        st.get("skipped_success_and_failure_of_steady_state", 0) for _, st in outs)
+    if rep.notes["histories_with_a_failing_call_after_a_successful_segment"] == 0:
+        raise MachineryError("vacuity: no history has a failing call after a successful segment")
     if min(rep.notes["histories_with_a_point_just_after_a_boundary"],
            rep.notes["histories_reading_views_before_a_continuation"]) == 0:
         raise MachineryError("vacuity: no history with an epsilon point / a read between continuations")
@@ -449,7 +457,7 @@ def run(ctx: Ctx) -> int:
     for h in hs[:: max(1, len(hs) // 3)][:3]:
         rep.sample({"calls": [s["op"] for s in h], "refused": [s["raised"] for s in h],
                     "predicted_index_ticks": [[show_time(q) for q in g["times"]] for g in h[-1]["st"]["segs"]]})
-    trace_direction(ctx, rep, PROP, 600 if ctx.quick else 8000, 8 if ctx.quick else 10, None, "driver")
+    trace_direction(ctx, rep, PROP, 600 if ctx.quick else 6000, 8 if ctx.quick else 10, None, "driver")
     repo_tests_direction(ctx, rep)
     return rep.finish()
 
